@@ -87,7 +87,7 @@ func (h *Authorization) Unmarshal(v base.HeaderValue) error {
 
 		h.Username, h.BasicPass = tmp2[0], tmp2[1]
 	} else { // digest
-		kvs, err := keyValParse(v0, ',')
+		kvs, err := keyValParseOrdered(v0, ',')
 		if err != nil {
 			return err
 		}
@@ -98,7 +98,9 @@ func (h *Authorization) Unmarshal(v base.HeaderValue) error {
 		uriReceived := false
 		responseReceived := false
 
-		for k, rv := range kvs {
+		for _, kv := range kvs {
+			k, rv := kv.key, kv.value
+
 			v := rv
 
 			switch k {
